@@ -43,9 +43,9 @@
 //	mode   0|1                        0 GET over HTTP/1.1, 1 websocket over HTTP/2 (extended CONNECT,
 //	                                  `:protocol: websocket`): ServeHTTP rewrites the prepared request
 //
-// Answer: "ip=<hex> tp=<0|1> ph=<hex> lg=<hex> cm=<0|1> rm=<0|1> pp=<hex>/<port>|invalid ck=<0|1|-> xff=<H> xfp=<H> xfh=<H>"
+// Answer: "ip=<hex> tp=<0|1> ph=<hex> tm=<hex> lg=<hex> cm=<0|1> rm=<0|1> pp=<hex>/<port>|invalid ck=<0|1|-> xff=<H> xfp=<H> xfh=<H>"
 //
-//	ph = {http.vars.client_ip}, lg = access-log field request.client_ip, cm / rm = the real client_ip /
+//	ph = {http.vars.client_ip}, tm = templates' {{.ClientIP}}, lg = access-log field request.client_ip, cm / rm = the real client_ip /
 //	remote_ip matchers over srvT ++ hT ++ fixedRanges, pp = the PROXY-protocol address reverse_proxy
 //	derives for the upstream;  H = absent | nil | hex,hex,…
 //
@@ -76,6 +76,7 @@ import (
 	"github.com/caddyserver/caddy/v2"
 	"github.com/caddyserver/caddy/v2/modules/caddyhttp"
 	"github.com/caddyserver/caddy/v2/modules/caddyhttp/reverseproxy"
+	"github.com/caddyserver/caddy/v2/modules/caddyhttp/templates"
 
 	"verif/harness/internal/core"
 )
@@ -98,6 +99,7 @@ type obs struct {
 	dynRanges                    []netip.Prefix // what the request-scoped IPRangeSource answers for this request
 	outHost                      string
 	matchedIP                    bool   // real `client_ip` matcher over matcherRanges
+	tmplIP                       string // templates' {{.ClientIP}}
 	celRan, celClient, celRemote bool   // the CEL forms of both matchers, when the probe carries them
 	remoteHit                    bool   // real `remote_ip` matcher over the same ranges
 	placeh                       string // {http.vars.client_ip} as the request's replacer expands it
@@ -165,6 +167,7 @@ func (p *Probe) ServeHTTP(w http.ResponseWriter, r *http.Request, next caddyhttp
 		if repl, ok := r.Context().Value(caddy.ReplacerCtxKey).(*caddy.Replacer); ok {
 			o.placeh = repl.ReplaceAll("{http.vars.client_ip}", "")
 		}
+		o.tmplIP = (templates.TemplateContext{Req: r}).ClientIP()
 		enc := zapcore.NewMapObjectEncoder()
 		if err := (caddyhttp.LoggableHTTPRequest{Request: r}).MarshalLogObject(enc); err == nil {
 			o.logIP, o.logHas = enc.Fields["client_ip"].(string)
@@ -890,7 +893,7 @@ func (p *prop) serve(k *kase, hdrs []hdrField) (string, *obs, error) {
 			}
 		}
 	}
-	head := "ip=" + core.Hex(o.clientIP) + " tp=" + b01(o.trusted) + " ph=" + core.Hex(o.placeh) + " lg=" + lg +
+	head := "ip=" + core.Hex(o.clientIP) + " tp=" + b01(o.trusted) + " ph=" + core.Hex(o.placeh) + " tm=" + core.Hex(o.tmplIP) + " lg=" + lg +
 		" cm=" + b01(o.matchedIP) + " rm=" + b01(o.remoteHit) + " pp=" + pp + " ck=" + o.cookie
 	if !o.sent {
 		if w.Code == 500 {
